@@ -204,8 +204,13 @@ def shards(tier, seed=1):
         sk = [(op, shapes) for op in ("V", "K", "Kp") for shapes in shp]
     for op, shapes in sk:
         out.append({"check": "smallk", "op": op, "tk": shapes[0], "dk": shapes[1], "examples": 10 if q else 96, "budget_s": 120 if q else 1920})
-    for op in ["V", "PV", "K", "PK", "Kp", "W"]:
-        out.append({"check": "modified", "op": op, "examples": 8 if q else 64, "budget_s": 120 if q else 1920})
+    pairs = [(["DP0"], ["DP0"]), (["P1"], ["DP0"]), (["DP0"], ["P1"]), (["P1"], ["P1"]), (["DP1"], ["P1"])]
+    for i, op in enumerate(["V", "PV", "K", "PK", "Kp", "W"]):
+        sp = {"check": "modified", "op": op, "examples": 12 if q else 64, "budget_s": 120 if q else 1920}
+        if q:
+            tk, dk = pairs[(seed + i) % len(pairs)] if op != "W" else (["P1"], [["P1"], ["DP1"]][seed % 2])
+            sp["tk"], sp["dk"] = tk, dk
+        out.append(sp)
     sy = [("helmholtz", "V"), ("helmholtz", "W"), ("modified", "W"), ("laplace", "KKp")]
     for fam, op in ([("helmholtz", "KKp")] + rot(sy, seed, 1) if q else [("helmholtz", "KKp")] + sy):
         out.append({"check": "symmetry", "fam": fam, "op": op, "examples": 4 if q else 32, "budget_s": 150 if q else 1920})
@@ -231,8 +236,10 @@ def strategy(spec):
             d["orders"] = [draw(st.integers(2, 6)), draw(st.integers(3, 6))]
         elif c == "modified":
             p1 = spec["op"] == "W"
-            d["test"] = draw(sg.space_descs(["P1", "DP1"] if p1 else ["DP0", "P1", "DP1"]))
-            d["trial"] = draw(sg.space_descs(["P1", "DP1"] if p1 else ["DP0", "P1", "DP1"]))
+            # quick shards fix one shape-set pair (each pair is a separate set of Numba specialisations for the Helmholtz and the modified
+            # Helmholtz operator: a shard that meets all nine spends its budget compiling); the thorough tier draws all of them
+            d["test"] = draw(sg.space_descs(spec.get("tk") or (["P1", "DP1"] if p1 else ["DP0", "P1", "DP1"])))
+            d["trial"] = draw(sg.space_descs(spec.get("dk") or (["P1", "DP1"] if p1 else ["DP0", "P1", "DP1"])))
             d["omega"] = draw(st.sampled_from([0.3, 1.0, 4.0]))
             d["k"] = draw(kk)
             d["orders"] = [draw(st.integers(1, 6)), draw(st.integers(2, 5))]
